@@ -384,12 +384,15 @@ struct NumHarness : vh::Harness {
     T cr = 0;
     if (finite_dec) cr = sizeof(T) == 4 ? (T)::strtof(lexeme_text(L).c_str(), nullptr) : (T)::strtod(lexeme_text(L).c_str(), nullptr);
     bool int19 = strip0(L.intd).size() <= 19;
-    bool in_limits = finite_dec && int19 && std::isnormal(cr) && ref >= Lim<T>::mn &&
-                     ref * (1 + 4 * Lim<T>::tol) <= Lim<T>::mx;
+    // the whole normal range; the last stretch below the maximum (within 4 tol, where a result "within tolerance" may
+    // not be representable and the scaling multiplications of the fast parser overflow) is the open class near-max-overflow
+    bool in_limits = finite_dec && int19 && std::isnormal(cr) && ref >= Lim<T>::mn && ref <= Lim<T>::mx;
+    bool near_max = finite_dec && ref * (1 + 4 * Lim<T>::tol) > Lim<T>::mx;
     bool well_inside = finite_dec && ref >= Lim<T>::lo && ref <= Lim<T>::hi;
     std::string cls = "none";
     if (finite_dec && cls_exp_field<T>(L)) cls = "exp-field-range";
     else if (finite_dec && cls_frac_zeros<T>(L)) cls = "frac-leading-zeros-19";
+    else if (near_max && ref <= Lim<T>::mx) cls = "near-max-overflow";
 
     if (sto) {
       // exception table
